@@ -25,6 +25,7 @@ class CompilerModel:
         self._flow = None
         self._ts = None
         self._rules = None
+        self._alloc = {}
 
     @property
     def flow(self):
@@ -75,15 +76,34 @@ class CompilerModel:
         return out
 
     def is_allocator(self, m):
-        """self.X += 1 ; return CONST + str(self.X)"""
-        body = [s for s in m.node.body if not (isinstance(s, ast.Expr) and isinstance(s.value, ast.Constant))]
-        if len(body) == 2 and isinstance(body[0], ast.AugAssign) and is_self_attr(body[0].target) and isinstance(body[0].op, ast.Add) \
-                and isinstance(body[1], ast.Return) and isinstance(body[1].value, ast.BinOp):
-            v = body[1].value
-            if isinstance(v.left, ast.Constant) and isinstance(v.right, ast.Call) and is_name(v.right.func, 'str') and \
-                    is_self_attr(v.right.args[0], body[0].target.attr):
-                return v.left.value
-        return None
+        """a parameterless method of the compiler that gives a different string on every call (a counter-numbered
+        name): decided by evaluating it twice from the state __init__ describes; -> the common prefix, or None"""
+        if m.qname in self._alloc:
+            return self._alloc[m.qname]
+        res = None
+        if m.cls is self.comp and len(m.params) == 1 and not m.is_generator and m.name != '__init__':
+            try:
+                sx = SymEx(self.repo, inline=lambda f: f.module.name in ('yp_generator', 'yp_prolog_visitor') and f.name != '_debug', max_depth=6)
+                sx.max_steps = 2000
+                st = PathState()
+                init = self.repo.lookup_method(self.comp, '__init__')
+                if init is not None:
+                    o = sx.run(init, [Sym('context')], st)
+                    st = o[0][0] if len(o) == 1 else None
+                if st is not None:
+                    o1 = sx.run(m, [], st)
+                    if len(o1) == 1 and isinstance(o1[0][1], Const) and isinstance(o1[0][1].v, str):
+                        o2 = sx.run(m, [], o1[0][0])
+                        if len(o2) == 1 and isinstance(o2[0][1], Const) and isinstance(o2[0][1].v, str) and o2[0][1].v != o1[0][1].v:
+                            a, b = o1[0][1].v, o2[0][1].v
+                            k = 0
+                            while k < min(len(a), len(b)) and a[k] == b[k]:
+                                k += 1
+                            res = a[:k]
+            except AnalysisError:
+                res = None
+        self._alloc[m.qname] = res
+        return res
 
     # -- rule extraction ------------------------------------------------------------------
     def body_rules(self):
@@ -131,7 +151,7 @@ class CompilerModel:
                     return [(st, Fresh(cm.is_allocator(f[1]), st.fresh))]
                 return SymEx.apply(self, e, f, args, kw, st, func)
         sx = SX(self.repo, universe=uni,
-                inline=lambda f: f.cls is comp and f.name not in ('compile_body', 'compile_expression', '_debug'),
+                inline=lambda f: f.module.name in ('yp_generator', 'yp_prolog_visitor') and f.name not in ('compile_body', 'compile_expression', '_debug'),
                 opaque=lambda n: n in ('compile_body', 'compile_expression'), max_depth=4)
         outs = sx.run(cb)
         self._rules = outs
@@ -467,7 +487,7 @@ def _bounded_worker(args):
                 st.fresh += 1
                 return [(st, Fresh(cm.is_allocator(f[1]), st.fresh))]
             return SymEx.apply(self, e, f, a, kw, st, func)
-    sx = SX(cm.repo, inline=lambda f: f.cls is comp and f.name not in ('compile_expression', '_debug'),
+    sx = SX(cm.repo, inline=lambda f: f.module.name in ('yp_generator', 'yp_prolog_visitor') and f.name not in ('compile_expression', '_debug'),
             opaque=lambda n: n in ('compile_expression',), max_depth=200)
     import sys
     import itertools as _it
